@@ -26,6 +26,8 @@ def bounds(tier):
                     "position; enums with <= %d labels" % (9 if tier == "quick" else 64),
             "update sequences": "three updates in a row (the first covering the item), each one of the ranges (5,1) (6,2) (5,3) (7,1) (4,3) with "
                                 "symbolic bytes, on a temperature item at bytes 6-7 with TempUnits at byte 5, and on a word item",
+            "refresh path": "two full refreshes in a row through the real transfer code of either class (the first one of "
+                            "the connection included), the watched word in the 2nd or 3rd segment",
             "observers": "two observers, one of them registered twice, in the item units; every watch/unwatch script "
                          "of <= %d operations over two observers in the observable unit" % (4 if tier == "quick" else 5)}
 
@@ -187,6 +189,77 @@ def update_sequence(sig, async_, steps):
     return scenario
 
 
+def refresh_path(async_):
+    """a full refresh arriving through the real transfer path (retry_request/_on_status_block_received of the
+    threaded class, get() of the asyncio class) against the real simulator's chain: the first refresh of a
+    connection and a later one both notify the watched item iff its value differs, once"""
+    def scenario(sx):
+        from sx.vloop import VLoop, patched_time, FakeDatagramTransport
+        from sx.core import Ite
+        from geckolib.config import GeckoConfig
+        from geckolib.driver import (GeckoStructure, GeckoAsyncStructure, GeckoAsyncUdpProtocol, GeckoWordStructAccessor,
+                                     GeckoStatusBlockProtocolHandler)
+        from .c01 import _mk_sim, _serve, _Sock, PARMS
+        from .common import DEST
+        loop = VLoop()
+        saved = GeckoConfig.PROTOCOL_TIMEOUT_IN_SECONDS
+        GeckoConfig.PROTOCOL_TIMEOUT_IN_SECONDS = 0.25
+        try:
+            with patched_time(loop):
+                pos = 40 + sx.choice("item_in_segment", 2) * 39      # in the second or the third segment
+                first = sx.bytes_("client_word", 2)
+                blocks = [sx.bytes_(f"spa_word{k}", 2) for k in range(2)]
+                C = bytes(pos) + first + bytes(1024 - pos - 2)
+                st = GeckoAsyncStructure(None, None) if async_ else GeckoStructure(None)
+                st.set_status_block(C)
+                acc = GeckoWordStructAccessor(st, "W", pos, None)
+                st.accessors = {"W": acc}
+                calls = []
+                acc.watch(lambda s_, o, n_: calls.append((o, n_)))
+                proto = None
+                cur = {}
+                if async_:
+                    proto = GeckoAsyncUdpProtocol(None, DEST)
+
+                    def on_send(tr, data, addr):
+                        for seg in _serve(cur["sim"], data):
+                            proto.datagram_received(seg, PARMS)
+                    proto.connection_made(FakeDatagramTransport(loop, proto, on_send))
+                sock = _Sock()
+                before = first
+                for k in range(2):
+                    S = bytes(pos) + blocks[k] + bytes(1024 - pos - 2)
+                    cur["sim"] = _mk_sim(S)
+                    del calls[:]
+                    if async_:
+                        ok = loop.run_until_complete(st.get(
+                            proto, lambda: GeckoStatusBlockProtocolHandler.full_request(
+                                proto.get_and_increment_sequence_counter(False), parms=PARMS), 2), max_time=60.0 * (k + 1))
+                    else:
+                        req = GeckoStatusBlockProtocolHandler.full_request(k + 1, parms=PARMS)
+                        n0 = len(sock.sends)
+                        st.retry_request(sock, req, PARMS)
+                        h, dest = sock.sends[n0]
+                        h.last_destination = dest
+                        for seg in _serve(cur["sim"], h.send_bytes):
+                            if req.should_remove_handler:
+                                break
+                            req.handle(seg, PARMS)
+                            req.handled(PARMS)
+                        ok = req.should_remove_handler
+                    sx.check(bool(ok), "ntf.refresh.transfer-completes")
+                    changed = (before[0] != blocks[k][0]) | (before[1] != blocks[k][1])
+                    sx.observe(f"calls{k}", len(calls))
+                    sx.check(Ite(changed, 1, 0) == len(calls), "ntf.refresh.iff-value-changed",
+                             lambda: f"refresh {k}: calls={len(calls)} changed={changed}")
+                    sx.check(acc.value == blocks[k][0] * 256 + blocks[k][1], "ntf.refresh.new-block-visible")
+                    before = blocks[k]
+                loop.cancel_all()
+        finally:
+            GeckoConfig.PROTOCOL_TIMEOUT_IN_SECONDS = saved
+    return scenario
+
+
 def _cls_of(rec, label):
     cls, unknown = refmodel.label_class(rec)
     labels = rec["labels"]
@@ -322,6 +395,8 @@ def units(tier):
         for r1 in range(5):
             yield Unit(f"update-sequence.{'async' if async_ else 'sync'}.temp.{r1}", update_sequence(temp, async_, 3),
                        max_paths=200000, ratio_floats=True, presets={"range1": r1})
+    yield Unit("refresh-path.sync", refresh_path(False), fresh_checks=True)
+    yield Unit("refresh-path.async", refresh_path(True), fresh_checks=True)
     yield Unit("two-items.sync", two_items(False))
     yield Unit("two-items.async", two_items(True))
     yield Unit("observable", observable(4 if tier == "quick" else 5), validate=True)
